@@ -917,21 +917,20 @@ class Frame(object):
         drift_rate = unit_utils.get_value(drift_rate, u.Hz / u.s)
         width = unit_utils.get_value(width, u.Hz)
 
-        start_index = self.get_index(f_start)
-
-        # Calculate the bounding box, to optimize signal insertion calculation
-        px_width_offset = 2 * width / self.df
-        if drift_rate < 0:
-            px_width_offset = -px_width_offset
+        # Calculate the bounding box, to optimize signal insertion calculation:
+        # the channels swept by the signal center, with a margin of two widths
+        # on either side, rounded outwards
+        px_start = (f_start - self.fmin) / self.df
+        px_width_offset = 2 * abs(width) / self.df
         px_drift_offset = self.dt * (self.tchans - 1) * drift_rate / self.df
         if doppler_smearing:
             px_drift_offset += drift_rate * self.dt / self.df
 
-        bounding_start_index = start_index + int(-px_width_offset)
-        bounding_stop_index = start_index + int(px_drift_offset + px_width_offset)
+        bounding_start_index = int(np.floor(px_start + min(px_drift_offset, 0) - px_width_offset))
+        bounding_stop_index = int(np.ceil(px_start + max(px_drift_offset, 0) + px_width_offset)) + 1
 
-        bounding_min_index = max(min(bounding_start_index, bounding_stop_index), 0)
-        bounding_max_index = min(max(bounding_start_index, bounding_stop_index), self.fchans)
+        bounding_min_index = min(max(bounding_start_index, 0), self.fchans)
+        bounding_max_index = max(min(bounding_stop_index, self.fchans), 0)
 
         # Select common frequency profile types
         if f_profile_type == 'gaussian':
